@@ -376,6 +376,7 @@ func checkC13(c *Ctx, r *Report) {
 		"R5 only keys whose metadata is expired at scan time are collected",
 		"R6 every removal by the janitor (eviction and cleanup) happens with the key lock of that entry held exclusively — taken with TryLock (skip on failure) or by a dominating blocking Lock; whether waiting is permitted there is decided by C14",
 		"R7 limit and interval consumers read the live setting (see C19.R4)",
+		"R9 eviction takes a second look at the entry stored under the candidate's key after acquiring its lock (a cache-side call on that key gates the removal), as R4 demands of cleanup: an entry used again or replaced since the lock-free scan is not evicted on the strength of that scan",
 	}
 	r.NotDec = []string{"which entries actually remain (run-time populations)", "the 80 % arithmetic and weights as numbers", "eviction order among entries skipped because they are in use"}
 	li := BuildLocks(c)
@@ -518,6 +519,85 @@ func checkC13(c *Ctx, r *Report) {
 			_ = target
 		}
 		r.Floor("C13.R2", len(removes), 1, "removals in evict")
+		// R9: the candidate list is a lock-free snapshot; between the scan and the removal of a key the entry can be
+		// used again or replaced by a fresh one. The removal therefore has to be gated, with the key lock held, by a
+		// second look at the entry now stored under that key (a cache-side call on the key other than getLock /
+		// removeEntry whose result decides whether the removal happens) — the counterpart of R4 for eviction.
+		okRe, firstBad := len(removes) > 0, token.NoPos
+		for _, rm := range removes {
+			g := rmFn[rm]
+			arg := atomStr(rm.Call.Args[0])
+			fs := factsOf(rm)
+			gated := false
+			for k := range fs {
+				if strings.HasPrefix(k, "TryLock(") || strings.HasPrefix(k, "Lock(") || strings.HasPrefix(k, "getCacheSize()") || strings.HasPrefix(k, "removeEntry(") || strings.HasPrefix(k, "phi:") {
+					continue
+				}
+				// a call (other than the lock / removal calls) that takes the key as a direct argument, in a fact that
+				// also mentions something else the scan recorded for this candidate (its metadata, a generation, ...):
+				// a mere presence test of the key does not tell a fresh entry from the one that was ranked
+				for _, name := range callsOnArg(k, arg) {
+					if name == "getLock" || name == "removeEntry" || name == "TryLock" || name == "Unlock" || name == "Lock" {
+						continue
+					}
+					if mentionsSibling(k, arg) {
+						gated = true
+					}
+				}
+				// or a helper that is handed the whole candidate (key and scanned metadata together)
+				if dot := strings.LastIndex(arg, "."); dot > 0 {
+					for _, name := range callsOnArg(k, arg[:dot]) {
+						if name != "append" && name != "Info" && name != "Debug" {
+							gated = true
+						}
+					}
+				}
+			}
+			// the second look is itself taken with the lock held
+			ordered := false
+			if gated {
+				eachInstr(g, func(in ssa.Instruction) {
+					x, ok := in.(*ssa.Call)
+					if !ok || x == rm {
+						return
+					}
+					a := atomStr(x)
+					if strings.HasPrefix(a, "getLock(") || strings.HasPrefix(a, "removeEntry(") || strings.HasPrefix(a, "TryLock(") || strings.HasPrefix(a, "Unlock(") || strings.HasPrefix(a, "Lock(") {
+						return
+					}
+					look := false
+					for _, name := range callsOnArg(a, arg) {
+						if name != "getLock" && name != "removeEntry" && name != "TryLock" && name != "Unlock" && name != "Lock" {
+							look = true
+						}
+					}
+					if dot := strings.LastIndex(arg, "."); dot > 0 {
+						for _, name := range callsOnArg(a, arg[:dot]) {
+							if name != "append" && name != "Info" && name != "Debug" {
+								look = true
+							}
+						}
+					}
+					if !look {
+						return
+					}
+					if hasFact(factStrsCtx(li, g, x), "TryLock(getLock(", true) || lockedBefore(li, g, x, "Lock(getLock(") {
+						ordered = true
+					}
+				})
+			}
+			if !(gated && ordered) {
+				okRe = false
+				if firstBad == token.NoPos {
+					firstBad = rm.Pos()
+				}
+			}
+		}
+		pos9 := f.Pos()
+		if firstBad != token.NoPos {
+			pos9 = firstBad
+		}
+		r.Check(okRe, "C13.R9", "evict: every removal looks at the entry again under its key lock", c.Pos(pos9), "a call on the candidate's key (other than getLock/removeEntry), made with the key lock held, gates the removal", "the entry is evicted on the strength of the lock-free scan alone: an entry used again or replaced by a fresh one between the scan and its turn in the removal loop is evicted as if it were still the least recently used")
 		// target = param * 0.8
 		okTarget := false
 		eachInstr(f, func(in ssa.Instruction) {
@@ -873,4 +953,67 @@ func keyTryLocked(fs map[string]bool, arg string) bool {
 		}
 	}
 	return false
+}
+
+// callsOnArg returns the names of the calls in the rendered expression s that take arg as a direct argument.
+func callsOnArg(s, arg string) []string {
+	var out []string
+	for off := 0; ; {
+		i := strings.Index(s[off:], arg)
+		if i < 0 {
+			return out
+		}
+		at := off + i
+		end := at + len(arg)
+		off = end
+		if at == 0 || (s[at-1] != '(' && s[at-1] != ',') || end >= len(s) || (s[end] != ')' && s[end] != ',') {
+			continue
+		}
+		// back to the unmatched opening parenthesis
+		depth, j := 0, at-1
+		for ; j >= 0; j-- {
+			if s[j] == ')' {
+				depth++
+			} else if s[j] == '(' {
+				if depth == 0 {
+					break
+				}
+				depth--
+			}
+		}
+		if j < 0 {
+			continue
+		}
+		e := j
+		for j > 0 && isIdentByte(s[j-1]) {
+			j--
+		}
+		if j < e {
+			out = append(out, s[j:e])
+		}
+	}
+}
+
+// mentionsSibling reports whether s mentions, besides arg ("t41.key"), another component of the value arg is a
+// component of ("t41.meta.LastAccess", "t41.gen").
+func mentionsSibling(s, arg string) bool {
+	dot := strings.LastIndex(arg, ".")
+	if dot < 0 {
+		return false
+	}
+	base := arg[:dot+1]
+	for off := 0; ; {
+		i := strings.Index(s[off:], base)
+		if i < 0 {
+			return false
+		}
+		at := off + i
+		off = at + len(base)
+		if at > 0 && (isIdentByte(s[at-1]) || s[at-1] == '.') {
+			continue
+		}
+		if !strings.HasPrefix(s[at:], arg) || (at+len(arg) < len(s) && (isIdentByte(s[at+len(arg)]) || s[at+len(arg)] == '.')) {
+			return true
+		}
+	}
 }
